@@ -46,11 +46,28 @@ def bounded(check, tier, seed):
     rng = random.Random(seed + 11)
     n = 1200 if tier == "thorough" else 260
     P = pool(rng, n)
+    from bounded.derived import derived_values
+    P = P + derived_values(seed + 4, n // 4)        # values at the end of chains of operations, partly rendered on the way
     s = Suite(check, "C19.pairs", f"all ordered pairs of a {len(P)}-value pool (random runs over 9 texts x 7 attribute sets, plus same-display/"
               "different-boundary, same-text/different-formatting and empty-run values): ==, !=, hash, set/dict membership against "
               "'same terminal string'; each value against its own terminal string and text as plain str, both operand orders",
               bound=f"pool {len(P)}, runs<=3", exhaustive=False)
-    strs = [str(f) for f in P]
+    def fresh_copy(x):
+        return FmtStr(*[Chunk(c.s, dict(c.atts)) for c in x.chunks])
+    strs = [str(fresh_copy(f)) for f in P]
+    # == is asked BEFORE either side was rendered for pairs with (i + j) % 3 == 0 (an answer must not depend on what was displayed),
+    # after rendering for the others
+    for i, f in enumerate(P):
+        for j, g in enumerate(P):
+            if (i + j) % 3 == 0:
+                e = strs[i] == strs[j]
+                a, b = fresh_copy(f), fresh_copy(g)
+                s.evaluations += 1
+                if (a == b) != e or (a != b) == e:
+                    s.fail("C19.eq", dict(f=repr(f), g=repr(g), f_runs=str(f.chunks), g_runs=str(g.chunks), rendered=False),
+                           f"f == g is {a == b} for values never rendered, same terminal string is {e}")
+                if (a == b) != (fresh_copy(f) == fresh_copy(g)) or (str(a), str(b), a == b)[2] != e:
+                    s.fail("C19.eq", dict(f=repr(f), g=repr(g), rendered="both ways"), "the answer of == changed after the values were rendered")
     hashes = [hash(f) for f in P]
     for i, f in enumerate(P):
         for j, g in enumerate(P):
